@@ -50,7 +50,9 @@ import (
 	"context"
 	"fmt"
 	"math/rand"
+	"os"
 	"sort"
+	"strconv"
 	"strings"
 	"sync"
 	"sync/atomic"
@@ -156,7 +158,7 @@ func (s *e2eSession) ping(label, st string, id int64) bool {
 	deadline := time.Now().Add(e2e.Watchdog)
 	for s.clientKeepAlives(id) < want {
 		if s.c.EOF() || !time.Now().Before(deadline) {
-			return s.fail("state %s: keep-alive %d of backend %s was not relayed to the client", st, id, label)
+			return s.fail("state %s: keep-alive %d of backend %s was not relayed to the client (client stream ended: %v, kicked: %q, backend closed by proxy: %v)", st, id, label, s.c.EOF(), e2e.ReasonText(s.c.Kicked()), mc.IsProxyClosed())
 		}
 		time.Sleep(50 * time.Microsecond)
 	}
@@ -571,6 +573,22 @@ func runE2E(r *lib.Run) {
 		specs[i] = sp
 	}
 	var next atomic.Int64
+	if only, err := strconv.Atoi(os.Getenv("VERIF_E2E_ONLY")); err == nil && only >= 0 && only < n {
+		// debugging aid: run a single session of the list (same spec as in the full run)
+		if rep, err := strconv.Atoi(os.Getenv("VERIF_E2E_REPEAT")); err == nil && rep > 1 {
+			one := specs[only]
+			specs = make([]e2eSpec, rep)
+			for i := range specs {
+				specs[i] = one
+				specs[i].N = i
+			}
+			n, workers = rep, 4
+		} else {
+			next.Store(int64(only))
+			n = only + 1
+			workers = 1
+		}
+	}
 	var wg sync.WaitGroup
 	var mu sync.Mutex
 	perState := map[string]map[string]int{} // state -> counter -> n
@@ -622,6 +640,9 @@ func runE2E(r *lib.Run) {
 				}
 				r.Eval(1)
 				if s.failed != "" {
+					if os.Getenv("VERIF_E2E_REPEAT") != "" {
+						fmt.Fprintf(os.Stderr, "%s E2E-ENDED-EARLY player=%s %s\n", time.Now().Format("15:04:05.000000"), s.name, s.failed)
+					}
 					r.Inconclusive(fmt.Sprintf("e2e session %d (%s, protocol %d): %s", i, sp.Kind, sp.Proto, s.failed))
 				}
 				// whatever was recorded is judged, also of a session that did not get to its end
